@@ -49,6 +49,9 @@ JUNK = {"a": {"b": [None, {"c": []}, 1.5]}, "d": [[], {}]}
 KINDS = [None, 0, 5, -1, 1.5, 0.0, "", "abc", [], [1], ["a"], [[]], {}, {"a": 1}, True, False, JUNK, [{"type": 5}], "2.1",
          {"type": "identity"}]
 FEW_KINDS = [None, 5, "abc", [1], {"a": 1}, JUNK]
+# text that is hostile to message formatting (str.format fields, % conversions, lone braces)
+HOSTILE = ["{x}", "{0}", "{0.a}", "%s", "%(a)s", "{", "}", "{0[a]}", "%"]
+KINDS += ["{x}", "%(a)s", {"{0.a}": 1}]
 
 SPECIAL_KEYS = ["extensions", "granular_markings", "custom_properties", "_valid_refs", "spec_version", "type", "id",
                 "objects", "definition", "definition_type", "created", "pattern", "pattern_type", "object_marking_refs"]
@@ -149,6 +152,22 @@ def sub_paths(value, prefix, depth):
     return out
 
 
+def dict_paths(value, prefix, depth):
+    """paths to every dictionary inside value (not the top-level object itself): [(path, dict)]"""
+    out = []
+    if depth <= 0:
+        return out
+    if isinstance(value, dict):
+        if prefix:
+            out.append((prefix, value))
+        for k, v in value.items():
+            out += dict_paths(v, prefix + [k], depth - 1)
+    elif isinstance(value, list):
+        for i, v in enumerate(value[:2]):
+            out += dict_paths(v, prefix + [i], depth - 1)
+    return out
+
+
 def reachable(desc):
     """class keys reachable through parse(): (key, category)"""
     out = []
@@ -188,6 +207,22 @@ def gen_slot_cases(run, desc):
                 ks = KINDS if (thorough or name in specials) else rng.sample(KINDS, 3 if op == "parse" else 2)
                 for v in ks:
                     cases.append(mk(subst=[[[name], v]]))
+            # format-hostile text as a value of every string-ish slot and as a KEY of every dictionary found in the base
+            # (dictionary-valued properties, hashes, extensions), as an unknown property name and as type / id text
+            for name in top:
+                if isinstance(base[name], str):
+                    for h in (HOSTILE if thorough or name in ("type", "id") else rng.sample(HOSTILE, 2)):
+                        cases.append(mk(subst=[[[name], h]]))
+                        if name == "id" and "--" in base[name]:
+                            cases.append(mk(subst=[[[name], base[name].split("--")[0] + "--" + h]]))
+            for pth, dval in dict_paths(base, [], 4):
+                sample = next(iter(dval.values())) if dval else "v"
+                for h in (HOSTILE if thorough else rng.sample(HOSTILE, 3)):
+                    cases.append(mk(subst=[[pth + [h], sample]], allow_custom=rng.random() < 0.3))
+            for h in HOSTILE:
+                for ac in (False, True):
+                    cases.append(mk(subst=[[[h], 1]], allow_custom=ac))
+                cases.append(mk(subst=[[["custom_properties"], {h: 1}]], allow_custom=rng.random() < 0.5))
             # a list value with one more element of another kind (a valid element followed by junk)
             for name in top:
                 if isinstance(base[name], list) and base[name]:
@@ -297,6 +332,13 @@ def gen_raw_cases(run):
         vals.append({"type": "x-foo", "id": "x", "extensions": {"extension-definition--" + UUID4: {"extension_type": k}}})
         vals.append({"type": "bundle", "id": "bundle--" + UUID4, "objects": [k]})
         vals.append({"type": "bundle", "id": "bundle--" + UUID4, "objects": k})
+    for h in HOSTILE:
+        vals.append({"type": h})
+        vals.append({"type": h, "id": h + "--" + UUID4})
+        vals.append({"type": "x-foo", "id": "x", "extensions": {h: {"extension_type": "new-sdo"}}})
+        vals.append({"type": "x-foo", "id": "x", "extensions": {"extension-definition--" + UUID4: {"extension_type": h}}})
+        vals.append({"type": "bundle", "id": "bundle--" + UUID4, "objects": [{"type": h, "id": "x"}]})
+        vals.append({h: h})
     cases = []
     for v in vals:
         for ac in (False, True):
